@@ -53,6 +53,9 @@ STAMPED = {
     "item_nested": ("($i:item, $s:item)", "pub fn a1(deps: &impl ::core::any::Any) -> u32 { 1 }\n        $i\n        pub fn a3(deps: &impl ::core::any::Any) -> u32 { 3 }\n        $s\n        pub(crate) fn a5(deps: &impl ::core::any::Any) -> u32 { 5 }",
                     None, ["a1", "a3", "a5"], "a1=1,a3=3,a5=5",
                     "macro_rules! mk2 { ($b:block) => { mk!(fn p2(deps: &impl ::core::any::Any) -> u32 $b, pub struct S4 { pub f: u8 }); } }\n    mk2!({ 2 });"),
+    # two alternative definitions of one function, selected by cfg; the one that exists is not the first
+    "cfg_alternatives": ("()", "#[cfg(any())] pub fn a1(deps: &impl ::core::any::Any) -> Missing { loop {} }\n        #[cfg(all())] pub fn a1(deps: &impl ::core::any::Any) -> u32 { 1 }\n        pub fn a2(deps: &impl ::core::any::Any) -> u32 { 2 }",
+                         "", ["a1", "a1", "a2"], "a1=1,a1=1,a2=2"),
     "vis_ident": ("($v:vis, $n:ident)", "$v fn $n(deps: &impl ::core::any::Any) -> u32 { 1 }\n        pub fn a2(deps: &impl ::core::any::Any) -> u32 { 2 }",
                   "pub(crate), a1", ["a1", "a2"], "a1=1,a2=2"),
 }
